@@ -202,6 +202,7 @@ def gen_files(r, tables, spec, ep, docs_sections):
         f = {}
         for _ in range(r.choice([1, 1, 2, 3])):
             s = r.choice(relevant) if r.random() < 0.85 else r.choice(others)
+            if s == 'Global' and r.random() < 0.8: s = relevant[0]
             opts = tables['classes'].get(s, [])
             if not opts: continue
             sec = f.setdefault(s, {})
